@@ -371,12 +371,12 @@ def respace(s, rng, toks=None):
     return " ".join(t.lex for t in toks)
 
 
-def reparen(s, rng, p=0.35):
+def reparen(s, rng, p=0.35, call_mode="formula"):
     """Wrap random operand sub-expressions of the *written* text in redundant parentheses.
     Only AST nodes whose token span contains no inserted token are eligible; callees, keyword
     names and the inside of y[...] never are."""
     toks = tokenize(s, add_intercept=True)
-    nd, spans = parse_tokens(toks, want_spans=True)
+    nd, spans = parse_tokens(toks, call_mode=call_mode, want_spans=True)
     callee_ids = set()
 
     def mark(n):
